@@ -115,6 +115,9 @@ def same(ctx, q, ref, tolc, tolh, positive=False):
     for k in ("D", "F", "H", "F_after"):
         if not relclose(q[k], ref[k], 1e-9):
             bad.append(k)
+    # the curvature matrix read again after the solve is the curvature matrix (recomputed or kept, never "restored" from F+H)
+    if "F" not in bad and "F_after" not in bad and not relclose(q["F_after"], q["F"], 1e-13):
+        bad.append("F_read_after_the_solve_differs_from_F_read_before")
     A = ref["F"] + ref["H"]
     cond = float(np.linalg.cond(A)) if np.isfinite(A).all() else float("inf")
     if cond <= 1e7:
@@ -183,6 +186,13 @@ def run_input(ctx, i):
                     o.regularization = aa.reg.Constant(coefficient=0.7)
                     d["regularized"] = True
                     break
+        if not only_functions and i % 8 == 5:
+            # one strongly regularized plane on its own (coefficient 2e3 .. 6e4: H is 1e6 .. 1e9 times larger than F) - whatever is
+            # added to F and taken away again leaves its mark at this ratio
+            mp1, d1 = gen_aa.mapper(aa, rng, case["mask"], case["ds"].grids.pixelization.over_sampler, "rect" if i % 16 == 5 else "del",
+                                    aa.reg.Constant(coefficient=float(10.0 ** rng.uniform(3.3, 4.8))))
+            d1.update({"params": int(mp1.params), "regularized": True, "strongly_regularized": True})
+            objs, desc = [mp1], [d1]
         if not only_functions and i % 6 == 2:
             # a fixed, always-present mix: a plain function list FOLLOWED by one of the same size that supplies its own operated matrix
             # (the order and the sizes matter for everything that pairs lists by position)
@@ -274,7 +284,7 @@ def run_input(ctx, i):
                 if not subset and rep == 0:
                     fresh_delta = delta
                 bad = same(ctx, q, ref, tolc, tolh, positive)
-                ctx.check(not bad, "preload.transparent", rep=rep, differing=bad, got={k: q[k] for k in bad[:2]}, expected={k: ref[k] for k in bad[:2]}, **W)
+                ctx.check(not bad, "preload.transparent", rep=rep, differing=bad, got={k: q.get(k) for k in bad[:2]}, expected={k: ref.get(k) for k in bad[:2]}, **W)
                 if first is None:
                     first = q
                 else:
@@ -347,7 +357,7 @@ def run_input(ctx, i):
                     ctx.check(False, "preload.transparent", rep=rep, exception=repr(e)[:300], slots_filled=filled, **W)
                     break
                 bad = same(ctx, q, ref, tolc, tolh, positive)
-                ctx.check(not bad, "preload.transparent", rep=rep, differing=bad, slots_filled=filled, got={k: q[k] for k in bad[:2]}, expected={k: ref[k] for k in bad[:2]}, **W)
+                ctx.check(not bad, "preload.transparent", rep=rep, differing=bad, slots_filled=filled, got={k: q.get(k) for k in bad[:2]}, expected={k: ref.get(k) for k in bad[:2]}, **W)
             ctx.case(case["m"], case["k"], case["d"], tagf, prod, nontrivial=bool(filled), cls=["formalism:" + tagf, "producer:" + prod] + ["producer_filled:" + k for k in filled],
                      sample=lambda: {"objects": desc, "formalism": tagf, "producer": prod, "slots_filled": filled})
     # the three dictionary slots (operated mapping matrices per function list / per mapper, data-vector terms per function list),
@@ -395,7 +405,7 @@ def run_input(ctx, i):
                         ctx.check(False, "preload.transparent", rep=rep, exception=repr(e)[:300], **W)
                         break
                     bad = same(ctx, q, ref, tolc, tolh, positive)
-                    ctx.check(not bad, "preload.transparent", rep=rep, differing=bad, got={k: q[k] for k in bad[:2]}, expected={k: ref[k] for k in bad[:2]}, **W)
+                    ctx.check(not bad, "preload.transparent", rep=rep, differing=bad, got={k: q.get(k) for k in bad[:2]}, expected={k: ref.get(k) for k in bad[:2]}, **W)
                 ctx.case(case["m"], case["k"], case["d"], tagf, subset, "dicts", nontrivial=True,
                          cls=["formalism:" + tagf] + ["dict_slot:" + k for k in subset],
                          sample=lambda: {"objects": desc, "formalism": tagf, "dictionary_slots": list(subset)})
@@ -423,7 +433,7 @@ def run_input(ctx, i):
                     q = outputs(aa, make())
                     bad = same(ctx, q, ref, tolc, tolh, positive)
                     ctx.check(not bad, "preload.transparent", how=how, history="the same w-tilde tables were used by an inversion of other data before", differing=bad,
-                              got={k: q[k] for k in bad[:2]}, expected={k: ref[k] for k in bad[:2]}, formalism="w_tilde", **W0)
+                              got={k: q.get(k) for k in bad[:2]}, expected={k: ref.get(k) for k in bad[:2]}, formalism="w_tilde", **W0)
             except aa.exc.InversionException:
                 ctx.skipped["tables_in_between:InversionException"] += 1
             except Exception as e:
